@@ -8,7 +8,7 @@ K      : rbasex sessions mixing valid requests with ones that must raise, on the
          and the six cache globals after every call); every request class executed on the real code (abel.Transform and the transform functions), outcome
          classified raise / forward / inverse *independently of the library* by the amplitude ratio on a Gaussian
          (forward multiplies a Gaussian of width s by ~s*sqrt(pi), inverse divides by it) and compared with the model
-S      : the property itself on the same table
+S      : the property itself on the same table; linbasex_transform_full on 1-D / single-row data; SVD factors just above 1
 """
 import contextlib
 import io
